@@ -476,7 +476,7 @@ static void describe(sb_t *o)
 static void enumerate(void)
 {
 	struct bfs_stats st;
-	bfs_run(&cb, (int)mc_opt_int("depth", mc_tier ? 8 : 6), mc_tier ? 3000000 : 1000000, &st);
+	bfs_run(&cb, (int)mc_opt_int("depth", mc_tier ? 10 : 6), mc_tier ? 6000000 : 1000000, &st);
 	MC_COUNT("states", st.states);
 	MC_COUNT("transitions", st.transitions);
 	MC_MAX("depth_completed", st.max_depth_done);
